@@ -33,6 +33,7 @@ func init() {
 var targets = []string{
 	"ARGS_GET", "ARGS", "ARGS_NAMES", "ARGS_GET_NAMES", "ARGS_GET:a", "ARGS_GET:/^a/", "ARGS_POST", "REQUEST_HEADERS:X-A|ARGS_GET",
 	"REQUEST_COOKIES", "&ARGS_GET", "ARGS_GET|!ARGS_GET:b", "ARGS|!ARGS:/^b/", "REQUEST_COOKIES_NAMES",
+	"ARGS|!ARGS:b", // one literal name excluded from a collection that concatenates two maps (the name in both)
 }
 
 var transforms = []string{"", "t:lowercase", "t:lowercase,t:trim", "t:trim"}
